@@ -7,19 +7,104 @@ CHECKS = {
         "technique": "Rocq proof (round-trip theorem) + model/implementation correspondence",
         "ref": "DESIGN.md 5 C12",
     },
+    "C16": {
+        "text": "Kernel-checked theorems over ALL multi-node histories (induction over event lists: StoreLogs of arbitrary batches on any node, DeleteRange, middleware restarts, at-rest tampering, verifier steps): the middleware's running sum is always the FNV chain over exactly the entries written since sumStartIdx and still held (C16_written_sum); hence a range stored as the leader checksummed it and read back unchanged yields a report without any error (C16_no_false_alarm), and a node whose log starts after Range.Start reports ErrRangeMismatch (C16_range_mismatch). The executable model is tied to verifier/store.go + verifier.go by differential execution of the same histories on the real verifier.LogStore (over InmemStore and over the real WAL), with a ground-truth oracle that is independent of the model.",
+        "note": "Trusted: Coq kernel, extraction (ExtrOcamlBasic), harness incl. its contract guard under the middleware. Verification reads are atomic w.r.t. writers (the store at that moment is a free parameter of the theorems). StoreLogs/DeleteRange atomic w.r.t. each other.",
+        "technique": "Rocq proof (history invariant + refinement of the contiguous-log spec) + model/implementation correspondence + ground-truth oracle",
+        "ref": "DESIGN.md 5 C16, 10 vfy",
+    },
+    "C17": {
+        "text": "Kernel-checked: the chained checksum is FNV-1a from state 0 over an explicit byte stream (C17_chain_is_fnv_of_stream); each FNV step is a bijection of uint64 (C17_fnv_step_bijective) so a divergence is never masked by later bytes and equal-length streams differing in one byte never collide (no caveat); detection theorem with the stream collision as explicit disjunct (C17_detect), every mutation leaving Data or Extensions alone changes the stream, in-flight blame is sound over all histories (C17_blame_inflight_sound). The clause 'any entry differs in Data or Extensions' is REFUTED on the faithful model: bytes moved across the Data/Extensions boundary hash identically (C17_stream_not_injective_refuted) -- open known finding data-ext-boundary-shift, reproduced on the implementation every run; any other undetected mutation is a VIOLATION.",
+        "note": "Partial by refutation: injectivity of the hashed stream fails across the Data/Extensions boundary (wire-compatibility, not fixed). Multi-entry re-framings of the stream are outside the property's single-field quantifier and are covered only by the collision disjunct.",
+        "technique": "Rocq proof (algebra of FNV-1a mod 2^64, stream characterisation) + refutation witness + model/implementation correspondence + mutation sweep with ground-truth oracle",
+        "ref": "DESIGN.md 5 C17, 10 vfy",
+    },
+    "C18": {
+        "text": "Kernel-checked: StoreLogs/DeleteRange through the middleware equal the same calls on the underlying store with a leader checkpoint gaining exactly the 24-byte metadata, errors leave store and verifier state untouched, foreign Extensions on a checkpoint are refused (C18_passthrough*, for every node state hence every sequence); small-step model of the 1-buffered verifyCh over ALL schedules of {StoreLogs caller, verifier goroutine, ReportFn return}: the caller's sends always complete even with no ReportFn return at all (C18_store_never_blocks), delivered+dropped+in_channel+in_progress+unsent = checkpoints at every point (C18_accounting), every processed report names exactly the range tiled by the checkpoints dropped before it (C18_skipped_range). Tied to the code by differential execution incl. deliberately blocked ReportFn, with twin-store, time-limit and accounting oracles on the implementation.",
+        "note": "Schedules are interleavings of atomic channel operations (Go memory model trusted). SkippedRange is per LogStore lifetime: the first report after a middleware restart names none.",
+        "technique": "Rocq proof (schedule-universal invariants of a small-step channel model; pass-through refinement) + model/implementation correspondence + twin-store / blocking / accounting oracles",
+        "ref": "DESIGN.md 5 C18, 10 vfy",
+    },
     "C19": {
-        "text": "Kernel-checked theorems over an executable model of migrate.CopyLogs/CopyStable (abstract contiguous-log stores, cancellation as the k-th ctx.Err() check, injected GetLog/StoreLogs failures, deferred close as an explicit flag): for every well-formed source (any length incl. 0, any first index), every batchBytes : Z and an empty destination the copy returns Ok with dst = src (First, Last, every GetLog), using non-empty consecutive batches that start at last+1; under every cancellation point/fault the destination holds a prefix and Canceled is returned exactly when the cancellation precedes the last loop check; progress is closed on every return path; CopyStable transfers all standard and extra keys when the source does not fail on missing keys. The model is tied to /repo/migrate by differential execution of the real functions on all 9 pairings of raft.InmemStore, the real WAL and raft-boltdb/v2 (result kind, channel closed, number of GetLog calls, batch sizes, destination contents), with model-independent oracles (dst == src, prefix on cancel, channel closed, context's own error).",
+        "text": "Kernel-checked theorems over an executable model of migrate.CopyLogs/CopyStable (abstract contiguous-log stores, cancellation as the k-th ctx.Err() check, injected GetLog/StoreLogs failures, a source whose FirstIndex/LastIndex fails (e.g. an already closed WAL), deferred close as an explicit flag): for every well-formed source (any length incl. 0, any first index), every batchBytes : Z and an empty destination the copy returns Ok with dst = src (First, Last, every GetLog), using non-empty consecutive batches that start at last+1; under every cancellation point/fault the destination holds a prefix and Canceled is returned exactly when the cancellation precedes the last loop check; progress is closed on every return path; CopyStable transfers all standard and extra keys when the source does not fail on missing keys. The model is tied to /repo/migrate by differential execution of the real functions on all 9 pairings of raft.InmemStore, the real WAL and raft-boltdb/v2 (result kind, channel closed, number of GetLog calls, batch sizes, destination contents), with model-independent oracles (dst == src, prefix on cancel, channel closed, context's own error).",
         "note": "Trusted: Coq kernel, extraction, harness. Stores are abstracted to the contiguous-log spec; guards: source indexes >= 1, last index < MaxUint64, disjoint byte/uint64 stable key spaces. The theorem for CopyStable assumes the source does not fail on never-set keys; raft-boltdb and InmemStore do fail there and CopyStable then stops with an error (modelled and exercised; reported as a suspected defect in DESIGN.md 10 mig/fs, not counted as a violation because the property speaks about keys with values).",
         "technique": "Rocq proof (induction over the source log / key lists) + model/implementation correspondence",
         "ref": "DESIGN.md 5 C19",
     },
     "C07": {
         "text": "Kernel-checked theorems about syscall traces: an executable checker `discipline` (every pwrite to a segment file is fsynced before the next ACK; a written file whose directory entry was not yet followed by a directory fsync gets one before the ACK; unlink is followed by a directory fsync before the ACK; segment files are created O_CREAT|O_EXCL and fallocated (mode 0, offset 0) to the requested size before any write; wal-meta.db appears only by rename of the written, synced and closed .tmp file, followed by a directory fsync) is proved sound for ALL traces against a durable-disk semantics (C07_discipline_sound: at every ACK every write to a live segment file is in synced content of an existing file with a durable directory entry, deletions are durable, the meta db is complete/synced/durably named; C07_meta_appears_complete), and the fs-layer model (Create/OpenWriter/File.Sync with first-Sync directory fsync/Delete/safeInitBoltDB/CommitState) is proved to generate only disciplined traces for callers that sync before acknowledging (C07_model_traces_ok). Tie: the extracted, proved checker is evaluated on the syscall traces of the PRODUCTION fs.FS + metadb.BoltMetaDB observed under strace for WAL workloads (fst lines), and the fs-layer model's predicted event sequence is compared with the observed one for direct fs-layer call sequences (fso lines). Independent Go-side oracles: a re-implementation of the discipline (witness signatures missing-dir-fsync, missing-file-fsync, delete-without-dir-fsync, non-exclusive-create, bad-fallocate, meta-tmp-not-synced, meta-not-renamed, ...), read-back of new segment files (requested size, zero-filled), exclusive-create probe, log read-back after reopen.",
-        "note": "PARTIAL by nature: the theorems are about syscall patterns. That the kernel/file system makes fsynced data and fsynced directory entries durable, that fallocate zero-fills and O_EXCL excludes are ASSUMPTIONS (they are the disk semantics of Fs/DisciplineFacts.v and the README's assumptions), as is the completeness and ordering of the strace log. bbolt's page writes are checked only as 'every page write to wal-meta.db is followed by fdatasync before the ACK'. Workloads are sequential (one API call at a time; the background rotation runs concurrently and is covered).",
+        "note": "PARTIAL by nature: the theorems are about syscall patterns. That the kernel/file system makes fsynced data and fsynced directory entries durable, that fallocate zero-fills and O_EXCL excludes are ASSUMPTIONS (they are the disk semantics of Fs/DisciplineFacts.v and the README's assumptions), as is the completeness and ordering of the strace log. bbolt's page writes are checked only as 'every page write to wal-meta.db is followed by fdatasync before the ACK of every call except StoreLogs' (the background rotation's metadata commit legitimately overlaps the return of the StoreLogs that sealed the segment; the next mutating call awaits it). Workloads are sequential (one API call at a time; the background rotation runs concurrently and is covered).",
         "technique": "Rocq proof (trace induction, simulation between checker state and disk semantics) + syscall-trace correspondence under strace",
         "ref": "DESIGN.md 5 C07",
     },
+    "C09": {
+        "text": "Kernel-checked theorems: for every history of successful appends / force-seal the concatenated writes of the writer model equal, byte for byte, the layout of an independent README-only encoder (32-byte header, 8-aligned zero-padded frames, one commit frame per batch whose CRC-32C covers exactly the bytes since the previous commit, index frame at IndexStart holding exactly the entry-frame offsets); the README-only decoder reads all of it back; constants are checked against the source by reflexivity. The model is tied to segment/*.go by byte-for-byte differential execution, and committed golden directories are opened by the current code and decoded by the README parser on every run.",
+        "note": "Guard: file < 2^32 bytes. Trusted: transcription of the README into coq/Fmt/ReadmeSpec.v, Coq kernel, extraction, harness. README 'just after the file header' wording for the first CRC range recorded as documentation discrepancy.",
+        "technique": "Rocq proof (refinement of an independent layout spec, decoder round trip) + model/implementation correspondence + golden fixtures",
+        "ref": "DESIGN.md 5 C09, 10 seg",
+    },
+    "C15": {
+        "text": "Kernel-checked theorems (segment level): every entry of every acknowledged batch is returned by the tail reader and, after sealing, by the sealed reader, for every payload length up to MaxEntrySize, every batch position and every size limit (read_frame's 64 KiB first read and exact second read are modelled); a batch with an entry above MaxEntrySize is refused without side effect; no size up to MaxEntrySize is refused. Tied to the code by the `sizes` stream over all boundary neighbourhoods; 64 MiB +- 1 run on the implementation in the thorough tier.",
+        "note": "L1 form (one segment file); guard file < 2^32 bytes.",
+        "technique": "Rocq proof (reader/writer round trip over all sizes) + model/implementation correspondence",
+        "ref": "DESIGN.md 5 C15, 10 seg",
+    },
 }
+
+CHECKS["C20"] = {
+    "text": "Static half: kernel-evaluated theorem over the tables regenerated from /repo's source on every run (go/ast scan of every IncrementCounter/SetGauge call site + compiled MetricDefinitions): every emitted name is a literal declared with the right kind, no duplicates. Dynamic half: the counters of the L2 model are compared with the implementation's after every step of generated operation sequences and with independently computed true totals (theorem C20_counters_true over all sequences: see Props/C20.v for its status).",
+    "note": "Trusted: the go/ast translator, Coq kernel (vm_compute on a finite table), harness. segment_rotations has no spec-level total.",
+    "technique": "Rocq proof over a model regenerated from source (translator) + model/implementation correspondence",
+    "ref": "DESIGN.md 5 C20",
+}
+
+
+_L2NOTE = 'Trusted: Coq kernel; extraction; harness (crashfs = in-memory VFS/MetaStore with durable/pending bookkeeping); bbolt as an atomic durable cell; torn-write granularity of 8 bytes. The L2 model works on abstract segment files; the byte-level recovery law is the L1 theorem (Seg/RecoverFacts.v).'
+_INTERIM = " NOTE: while the master theorem's proof is in progress the Props file holds proved fragments named *_partial; the statement is evaluated on random histories of the model every run (a test) and the model is tied to the implementation by the streams."
+for _p, _t in {
+  "C01": "Master statement crash_refinement_stmt (Wal/Hist.v): for all histories of calls, power losses at any I/O boundary with any adversary choice over non-durable files and pending batches, nested crashes inside recovery and reopen cycles, Open succeeds and the recovered log equals the acknowledged state or the state of the interrupted call. Model tied to the code by the crash stream (crash images built from the implementation's own I/O trace, recovered by the real Open) with an acknowledged-entries oracle.",
+  "C02": "Same master statement: the recovered state is EXACTLY the acknowledged or the in-flight state (nothing fabricated, batch whole or absent), over chains of crashes; byte-level law seg_recover_committed (L1) for torn writes and stale bytes.",
+  "C03": "Same master statement: every Open after a crash succeeds and every later call behaves like the specification (append at LastIndex+1, truncations, stable writes, reopen). Usability probe on every crash image of the stream.",
+  "C04": "Same master statement: an interrupted DeleteRange leaves the old or the new state, an acknowledged one stays applied; re-appended entries are never displaced (segment ids distinguish generations).",
+  "C13": "Same master statement (dir_exact after every Open; no creation ever hits an existing file) plus directory listing and segment-identity reuse oracles on every crash image.",
+}.items():
+    CHECKS[_p] = {"text": _t + _INTERIM, "note": _L2NOTE, "technique": "Rocq proof (crash invariant / refinement over histories) + model/implementation correspondence on crash images", "ref": "DESIGN.md 5 " + _p}
+CHECKS["C05"] = {"text": "Statement seq_refinement_stmt (Wal/Hist.v): for every sequence of StoreLogs/DeleteRange/GetLog/FirstIndex/LastIndex/stable ops/Close+Open, every result class and the abstract state equal the contiguous-log specification's. Model tied to the code by the seqapi stream (results, every entry, metrics, metadata, directory, I/O trace; crashfs and real fs+BoltDB) and an independent reference-log oracle." + _INTERIM,
+                 "note": _L2NOTE, "technique": "Rocq proof (refinement to an abstract contiguous log) + model/implementation correspondence", "ref": "DESIGN.md 5 C05"}
+CHECKS["C08"] = {"text": "Stable store: Get returns the latest successful Set across interleavings with log operations and reopens (seq_refinement_stmt, dk_stable = spec map) and across crashes (crash_refinement_stmt); isolation lemmas; uint64 round trip. Tied by seqapi (incl. real BoltDB) and crash streams." + _INTERIM,
+                 "note": _L2NOTE + " bbolt's transaction atomicity/durability is trusted (partial).", "technique": "Rocq proof (refinement incl. key/value map) + model/implementation correspondence", "ref": "DESIGN.md 5 C08"}
+CHECKS["C10"] = {"text": "Statement fault_safety_stmt (Wal/FaultHist.v): for every history with an I/O error injected at any action of any call, readers of the running process see exactly the acknowledged state and a reopen presents a state in which each failed call is applied in full or not at all. Proved so far: rollback of failed appends/force-seals, failed commits publish nothing, writes refused after a failed post-commit creation. Model tied to the code by the faults stream; acknowledged-entries oracle." + _INTERIM,
+                 "note": _L2NOTE + " Faults are single transient failures without partial effect; deletions exempt.", "technique": "Rocq proof (partial: local rollback lemmas; full statement tested) + model/implementation correspondence under fault injection", "ref": "DESIGN.md 5 C10"}
+
+CHECKS["C11"] = {
+    "text": "Kernel-checked theorems on the byte-level models: scanning terminates with fuel to spare on every byte string; the only data-dependent allocations (CRC batch buffer, second frame read, dump buffer) are bounded by the file length resp. MaxEntrySize; a sealed file shorter than its header / with damaged magic or version / with another segment's header is refused; every strict prefix of a valid entry encoding and every valid encoding followed by extra bytes decodes to an error; at the WAL level a listed sealed segment that is missing or header-less makes Open fail. The models are tied to the code by the corrupt stream (damaged files: outcome kind and recovered entries equal the model's), the malformed half of the codec stream, and an implementation-only stream (openfail) that damages real directories, requires Open to fail, and requires a second Open in the same process to return and - damage undone - to present the original log.",
+    "note": "PARTIAL for the runtime clauses: 'never panics / hangs' and 'allocates within a bound' of the Go code, and 'a failed Open leaves nothing locked or open' (BoltDB flock, OS handles) are observed under a watchdog, not proved. bbolt trusted.",
+    "technique": "Rocq proof (termination/fuel, allocation bounds, decoder rejection lemmas) + model/implementation correspondence on damaged inputs + implementation-side watchdog oracles",
+    "ref": "DESIGN.md 5 C11, 10 seg",
+}
+
+CHECKS['C14'] = {'note': 'Partial proof: see coq/Props/C14.v header. Found and drove the repair of 4 defects (74e5b3c, b259a49, 52ced73, d688ba5).',
+ 'ref': 'DESIGN.md 5 C14, 10 conc',
+ 'technique': 'Rocq proof (schedule-quantified invariants) + forced-schedule model/implementation correspondence + oracles',
+ 'text': "Kernel-checked for all schedules of the executable L3 model (Close, any number of API callers, rotation goroutine; atomic steps = the code's atomic "
+         'actions and hook points): calls started after the closed flag is set return ErrClosed and a second Close is a no-op (C14_after_close), writeMu '
+         'mutual exclusion. For states satisfying the protocol invariant Inv1 (executable, tested, holds initially; inductiveness proved only for pc '
+         'consistency/roles/mutex): no step panics (C14_racing_calls_partial), some thread is enabled while a caller is unfinished (C14_no_deadlock_partial), '
+         'the system cannot rest with the rotation goroutine alive after Close (C14_rotator_exits_partial). The model is tied to wal.go/state.go by forcing '
+         'the same schedules on the real WAL through the verif hook points (every method x window x Close stage, pending rotation, random) and comparing '
+         'outcomes; model-independent oracles: recover(), deadlock watchdog, ErrClosed after Close, rotation goroutine exit, handle accounting, reopen. '
+         "Deadlock freedom and rotator exit for all reachable states, handle release and 'only result or ErrClosed' are NOT proved (partial): they are decided "
+         'by those oracles.'}
+
+CHECKS['C06'] = {'note': 'Partial proof: see coq/Props/C06.v header.',
+ 'ref': 'DESIGN.md 5 C06, 10 conc',
+ 'technique': 'Rocq proof (schedule-quantified invariants) + forced-schedule correspondence + history checker + race detector',
+ 'text': 'Kernel-checked for all schedules of the same L3 model (writer: append with offsets publish / write / fsync / commitIdx store, rotation, head and '
+         'tail truncation with re-append; any number of readers): an entry becomes visible only after its batch is synced and readers read below the synced '
+         'prefix (C06_visible_only_durable); model-level absence of read/write conflicts on file contents (C06_no_conflict_partial, partial by nature). '
+         'Linearizability and use-after-close freedom are NOT proved: forced schedules around the protocol windows are compared with the extracted model, and '
+         "every read of every forced and free-running (8 readers, 1 writer) history is checked read-by-read against the writer's version log; the stress also "
+         'runs under the race detector in the thorough tier.'}
 
 _pending = "check not built yet in this round (machinery under construction; see DESIGN.md section 10)"
 NOT_APPLICABLE = {("C%02d" % i): _pending for i in range(1, 21) if ("C%02d" % i) not in CHECKS}
